@@ -184,8 +184,8 @@ example : Ucd.empty.nfc [0x1100, 0x11A8] = [0x1100, 0x11A8] := by decide        
 example : @evalBin ⟨C04.ucdSample.nfc⟩ .eq (.str ([0x65] ++ [0x301])) (.str [0xE9]) = .ok (.bool true) := by decide
 example : @eval ⟨C04.ucdSample.nfc⟩ [] (.bin .eq (.bin .add (.lit (.str "'e'")) (.lit (.str "'\\u0301'"))) (.lit (.str "'\\u00e9'"))) =
     .ok (.bool true) := by decide +kernel
-example : @eval ⟨C04.ucdSample.nfc⟩ [] (.attr (.setLit [.lit (.str "'e\\u0301'"), .lit (.str "'\\u00e9'")]) "count") = .ok (.rat 2) := by
-  decide +kernel                                                                        -- a set identifies its elements by the raw text
+example : @eval ⟨C04.ucdSample.nfc⟩ [] (.attr (.setLit [.lit (.str "'e\\u0301'"), .lit (.str "'\\u00e9'")]) "count") = .ok (.rat 1) := by
+  decide +kernel                                                                        -- two spellings of one text are one element
 
 /-! ## sets -/
 
@@ -211,21 +211,24 @@ theorem C04.sets_compare [StrNorm] (op : BinOp) (as bs : List Scalar) (r : Bool)
 example : @evalBin StrNorm.plain .lt (.set [.rat 1]) (.set [.rat 2, .rat 1]) = .ok (.bool true) := by decide +kernel
 example : @evalBin StrNorm.plain .lt (.set [.rat 1, .rat 2]) (.set [.rat 2, .rat 1]) = .ok (.bool false) := by decide +kernel
 
-/-- Element-wise application of the arithmetic operators, operand order preserved on both sides. -/
+/-- Element-wise application of the arithmetic operators, operand order preserved on both sides; the results are
+    identified as set elements (`normSc`: a string by its normal form, anything else by itself). -/
 theorem C04.sets_elementwise [StrNorm] (op : BinOp) (s : List Scalar) (c : Scalar) (r : List Scalar) :
-    (evalBin op (.set s) (.sc c) = .ok (.set r) → ∀ y, y ∈ r ↔ ∃ x ∈ s, scBin op x c = .ok y) ∧
-    (evalBin op (.sc c) (.set s) = .ok (.set r) → ∀ y, y ∈ r ↔ ∃ x ∈ s, scBin op c x = .ok y) :=
-  ⟨evalBin_elementwise_left op s c r, evalBin_elementwise_right op c s r⟩
+    (evalBin op (.set s) (.sc c) = .ok (.set r) → ∀ y, y ∈ r ↔ ∃ x ∈ s, ∃ z, scBin op x c = .ok z ∧ y = normSc z) ∧
+    (evalBin op (.sc c) (.set s) = .ok (.set r) → ∀ y, y ∈ r ↔ ∃ x ∈ s, ∃ z, scBin op c x = .ok z ∧ y = normSc z) := by
+  constructor
+  · intro h y; rw [evalBin_elementwise_left op s c r h y]; simp only [scBinEl_ok]
+  · intro h y; rw [evalBin_elementwise_right op c s r h y]; simp only [scBinEl_ok]
 
 example : @evalBin StrNorm.plain .sub (.rat 10) (.set [.rat 1, .rat 2]) = .ok (.set [.rat 9, .rat 8]) := by decide +kernel
 
-/-- Set literals: an empty literal and a literal of mixed kinds are rejected; otherwise the literal is its set of
-    elements. -/
-theorem C04.sets_literal (vs : List Scalar) :
+/-- Set literals: an empty literal and a literal of mixed kinds are rejected; otherwise the literal is the set of its
+    elements, a string being identified by its normal form. -/
+theorem C04.sets_literal [StrNorm] (vs : List Scalar) :
     (vs = [] → mkSet (vs.map .sc) = .error (.invalid .emptySet)) ∧
     ((∃ x ∈ vs, ∃ y ∈ vs, x.kind ≠ y.kind) → mkSet (vs.map .sc) = .error (.invalid .hetero)) ∧
     (vs ≠ [] → (∀ x ∈ vs, ∀ y ∈ vs, x.kind = y.kind) →
-      ∃ r, mkSet (vs.map .sc) = .ok (.set r) ∧ ∀ x, x ∈ r ↔ x ∈ vs) := by
+      ∃ r, mkSet (vs.map .sc) = .ok (.set r) ∧ ∀ x, x ∈ r ↔ ∃ y ∈ vs, x = normSc y) := by
   have hfm : ∀ g : Val → Option Scalar, (∀ s, g (.sc s) = some s) → (vs.map Val.sc).filterMap g = vs := by
     intro g hg
     induction vs with
@@ -235,23 +238,48 @@ theorem C04.sets_literal (vs : List Scalar) :
   · rintro rfl; simp [mkSet, inval]
   · rintro ⟨x, hx, y, hy, hxy⟩
     have hne : vs ≠ [] := by rintro rfl; simp at hx
-    have hk : sameKinds vs = false := by
-      rw [← Bool.not_eq_true, sameKinds_iff]; intro h; exact hxy (h x hx y hy)
+    have hk : sameKinds (vs.map normSc) = false := by
+      rw [sameKinds_map_normSc, ← Bool.not_eq_true, sameKinds_iff]; intro h; exact hxy (h x hx y hy)
     have hne' : (vs.map Val.sc).isEmpty = false := by cases vs <;> simp_all
     unfold mkSet
     simp only [hne', Bool.false_eq_true, ↓reduceIte]
     rw [hfm _ (fun _ => rfl)]
-    have hv : vs.isEmpty = false := by cases vs <;> simp_all
+    have hv : (vs.map normSc).isEmpty = false := by cases vs <;> simp_all
     simp [mkSetS, hk, hv, inval]
   · intro hne hk
-    have hk' : sameKinds vs = true := (sameKinds_iff vs).mpr hk
+    have hk' : sameKinds (vs.map normSc) = true := by rw [sameKinds_map_normSc]; exact (sameKinds_iff vs).mpr hk
     have hne' : (vs.map Val.sc).isEmpty = false := by cases vs <;> simp_all
-    refine ⟨dedup vs, ?_, fun x => mem_dedup x vs⟩
-    unfold mkSet
-    simp only [hne', Bool.false_eq_true, ↓reduceIte]
-    rw [hfm _ (fun _ => rfl)]
-    simp only [List.length_map, BEq.rfl, ↓reduceIte]
-    exact mkSetS_ok_of vs hne hk'
+    have hne'' : vs.map normSc ≠ [] := by simpa using hne
+    refine ⟨dedup (vs.map normSc), ?_, fun x => ?_⟩
+    · unfold mkSet
+      simp only [hne', Bool.false_eq_true, ↓reduceIte]
+      rw [hfm _ (fun _ => rfl)]
+      simp only [List.length_map, BEq.rfl, ↓reduceIte]
+      exact mkSetS_ok_of _ hne'' hk'
+    · rw [mem_dedup, List.mem_map]
+      constructor
+      · rintro ⟨y, hy, rfl⟩; exact ⟨y, hy, rfl⟩
+      · rintro ⟨y, hy, rfl⟩; exact ⟨y, hy, rfl⟩
+
+/-- Sets of strings: two spellings are one element exactly when their normal forms are equal - `{a} == {b}` holds
+    exactly when `a == b` does, and `{a, b}.count` is 1 or 2 accordingly. -/
+theorem C04.sets_of_strings [StrNorm] (a b : List Nat) :
+    mkSet [.str a] = .ok (.set [.str (StrNorm.nfc a)]) ∧
+    evalBin .eq (.set [.str (StrNorm.nfc a)]) (.set [.str (StrNorm.nfc b)]) = .ok (.bool (decide (StrNorm.nfc a = StrNorm.nfc b))) ∧
+    (∀ s, mkSet [.str a, .str b] = .ok s →
+      evalAttr s "count" = .ok (.rat (if StrNorm.nfc a = StrNorm.nfc b then 1 else 2))) := by
+  refine ⟨?_, ?_, ?_⟩
+  · simp [mkSet, mkSetS, sameKinds, normSc, dedup]
+  · by_cases h : StrNorm.nfc a = StrNorm.nfc b <;>
+      simp [evalBin, setSet, setKind, Scalar.kind, setEq, subsetL, h, eq_comm]
+  · intro s hs
+    by_cases h : StrNorm.nfc a = StrNorm.nfc b
+    · have : s = .set [.str (StrNorm.nfc b)] := by
+        simpa [mkSet, mkSetS, sameKinds, normSc, dedup, Scalar.kind, h] using hs.symm
+      subst this; simp [evalAttr, h]
+    · have : s = .set [.str (StrNorm.nfc a), .str (StrNorm.nfc b)] := by
+        simpa [mkSet, mkSetS, sameKinds, normSc, dedup, Scalar.kind, h] using hs.symm
+      subst this; simp [evalAttr, h]
 
 example : @eval StrNorm.plain [] (.setLit []) = .error (.invalid .emptySet) := by decide +kernel
 
